@@ -29,6 +29,9 @@ func near(a, b []float64, rel float64) bool {
 		if a[i] == b[i] {
 			continue
 		}
+		if math.IsNaN(a[i]) != math.IsNaN(b[i]) {
+			return false // NaN on one side only (every comparison with NaN is false: it would pass the test below)
+		}
 		if math.Abs(a[i]-b[i]) > rel*math.Max(1, math.Max(math.Abs(a[i]), math.Abs(b[i]))) {
 			return false
 		}
@@ -49,6 +52,7 @@ type Config struct {
 	Num  *NumericCfg `json:"numeric,omitempty"`
 	Comp *CompCfg   `json:"comp,omitempty"`
 	ErrFlow *ErrFlowCfg `json:"errflow,omitempty"`
+	Batch *BatchCfg `json:"batch,omitempty"`
 }
 
 func flat(xs ...interface{}) []float64 {
@@ -106,6 +110,9 @@ func (c *Config) run(pc PoolCfg) (obs []float64, errd bool, panicked string) {
 			f = 1
 		}
 		return []float64{f}, e, pn
+	case "batch":
+		o, pn := runBatch(c.Batch, pc)
+		return o.Par, o.Err, pn
 	case "comp":
 		// batch evaluation of composite emissions; the sequential reference (pool of one thread) is the table
 		// obtained by direct LogPdf calls on the original distributions
@@ -155,6 +162,20 @@ func (c *Config) oracle(pc PoolCfg, deadline time.Duration) string {
 		case !r.err && !near(r.obs, ref, 1e-9):
 			return fmt.Sprintf("result differs from the sequential run: sequential=%v parallel=%v", ref, r.obs)
 		}
+		if c.Site == "batch" && c.Batch.G == nil && r.pn == "" {
+			// nothing lost, nothing counted twice, independently of the model: an unweighted observation counts like one
+			// of log-weight 0 (the two branches of NewObservation use different accumulators: counts vs. log-sums)
+			alt := *c.Batch
+			alt.G = make([]float64, alt.n())
+			if ao, apn := runBatch(&alt, PoolCfg{K: 1}); apn == "" {
+				switch {
+				case ao.Err != r.err:
+					return fmt.Sprintf("unweighted estimation error=%v but the sequential estimation with all log-weights 0 error=%v (a partial sum is lost or counted twice)", r.err, ao.Err)
+				case !r.err && !near(r.obs, ao.Par, 1e-9):
+					return fmt.Sprintf("unweighted estimate differs from the sequential estimate with all log-weights 0 (a partial sum is lost or counted twice): log-weights 0=%v unweighted on the pool=%v", ao.Par, r.obs)
+				}
+			}
+		}
 		return ""
 	case <-time.After(deadline):
 		return fmt.Sprintf("deadline of %v exceeded (deadlock in Wait?)", deadline)
@@ -168,7 +189,9 @@ func genConfig(r *Rng) *Config {
 		c := genErrFlow(r, r.Intn(nErrFlowClean))
 		return &Config{Site: "errflow", ErrFlow: c}
 	}
-	switch r.Intn(11) {
+	switch r.Intn(12) {
+	case 11:
+		return &Config{Site: "batch", Batch: genBatch(r)}
 	case 9, 10:
 		return &Config{Site: "comp", Comp: genComp(r)}
 	case 6:
@@ -340,6 +363,8 @@ func fromRaw(rc *RawCase) *Config {
 		return &Config{Site: "comp", Comp: rc.Comp}
 	case rc.ErrFlow != nil:
 		return &Config{Site: "errflow", ErrFlow: rc.ErrFlow}
+	case rc.Batch != nil:
+		return &Config{Site: "batch", Batch: rc.Batch}
 	}
 	return nil
 }
@@ -455,7 +480,10 @@ func replayMain(o Opts) {
 	g.sw = NewCaseWriter(o.Out, "sreplay", oheader, "sagamism", 200)
 	g.sw.Type = "sagacase"
 	g.noTransPanics, _ = bwNoTransPanics()
-	rc := RawCase{Em: c.Em, Bw: c.Bw, Nm: c.Nm, X: c.X, Full: c.Full, Saga: c.Saga, Num: c.Num, Comp: c.Comp, ErrFlow: c.ErrFlow}
+	rc := RawCase{Em: c.Em, Bw: c.Bw, Nm: c.Nm, X: c.X, Full: c.Full, Saga: c.Saga, Num: c.Num, Comp: c.Comp, ErrFlow: c.ErrFlow, Batch: c.Batch}
+	g.aw = NewCaseWriter(o.Out, "areplay", aheader, "amism", 40)
+	g.aw.Type = "acase"
+	defer g.aw.Flush()
 	g.ew = NewCaseWriter(o.Out, "ereplay", eheader, "emism", 60)
 	g.ew.Type = "ecase"
 	defer g.ew.Flush()
